@@ -135,9 +135,29 @@ class Writer:
                         if items is not None and len(items) == 1 and is_const(items[0]) and cval(items[0]) == 0:
                             return [("zeros", cnt)]
                 if a.op == "ref":
-                    ho = self._heap_obj(a)
+                    # bytes(BA) taken while BA is still being filled (the MAC input of an entry that then receives its MAC): the content at the time of the conversion
+                    snap_ = None
+                    if args[0].op == "snap":
+                        for e_ in reversed(ex.trace):
+                            if e_.kind == "extcall" and e_.d.get("result") is t and e_.d.get("snapshot_of") is not None:
+                                snap_ = e_.d["snapshot_of"]
+                                break
+                    ho = snap_ if snap_ is not None else self._heap_obj(a)
                     if ho is not None and ho.kind == "bytearray":
-                        hist = self._history(a, depth)
+                        snaps_ = getattr(self, "list_snapshots", None)
+                        if snap_ is not None:
+                            if snaps_ is None:
+                                snaps_ = self.list_snapshots = {}
+                            prev_ = snaps_.get(a.args[0], "none")
+                            snaps_[a.args[0]] = snap_
+                        try:
+                            hist = self._history(a, depth)
+                        finally:
+                            if snap_ is not None:
+                                if prev_ == "none":
+                                    snaps_.pop(a.args[0], None)
+                                else:
+                                    snaps_[a.args[0]] = prev_
                         if hist is not None:
                             return hist
                     items = self._list_items(a)
@@ -146,6 +166,13 @@ class Writer:
                 if a.op == "tuple":
                     return _merge_consts([("const", bytes([cval(x)])) if is_const(x) else ("int", 1, x, "big") for x in a.args[0]])
                 return F(a) if a.op in ("bin", "join", "loopexit", "phi") else [("opaque", t)]
+        if t.op == "ref":
+            # a bytearray used as a byte string (appended to another one, concatenated): its construction history
+            ho = self._heap_obj(t)
+            if ho is not None and ho.kind == "bytearray":
+                hist = self._history(t, depth)
+                if hist is not None:
+                    return hist
         if t.op == "phi":
             a, b = F(t.args[1]), F(t.args[2])
             if a == b:
